@@ -349,6 +349,37 @@ theorem readd_moves_to_front (env : Env) (B : List Rs) (H : List Nat) (now : Nat
     obtain ⟨_, _, rfl⟩ := hh
     rfl
 
+/-- **A drop-in is a fresh copy.**  In every engine state (reachable or not), after an accepted
+`add T d` every drop-in ruleset carrying tag `T` is one of the rulesets the compiler produced for
+`d`: the merged copy `mergedRs target dr` of `scoped_replacement`, with no pause deadline and no
+suspended chain of its own, sharing nothing with the base ruleset or with the tag's previous
+content. -/
+theorem dropin_is_fresh_copy (env : Env) (w : OomdModel.DropIn.World) (T : Tag) (d : Root) (stat : Int)
+    (hok : (step env w (.add T d)).2 = Out.op .added stat) :
+    ∀ b ∈ (step env w (.add T d)).1.eng.rulesets, ∀ x ∈ b.dropins, x.tag = T →
+      x.rs.st = {} ∧
+      ∃ dr ∈ d.rulesets, ∃ target, targetOf env.root.rulesets dr = some target ∧ x.rs = mergedRs target dr := by
+  intro b hb x hx ht
+  simp only [step] at hok hb
+  cases hc : compileDropIn env.reg env.root d with
+  | none => simp [hc] at hok
+  | some u =>
+    simp only [hc] at hok hb
+    have h1 : (updateDropIn T (some u) w.eng).1 = true := by
+      cases h : (updateDropIn T (some u) w.eng).1
+      · simp [h] at hok
+      · rfl
+    have hm := updateDropIn_tagged T u w.eng h1 b hb x hx ht
+    refine ⟨(compileDropIn_pristine env.reg env.root d u hc x.rs hm).1, ?_⟩
+    rw [scoped_replacement] at hc
+    split at hc
+    · simp only [Option.some.injEq] at hc
+      subst hc
+      simp only [List.mem_filterMap, Option.map_eq_some_iff] at hm
+      obtain ⟨dr, hdr, target, htg, he⟩ := hm
+      exact ⟨dr, hdr, target, htg, he.symm⟩
+    · simp at hc
+
 /-! ## reversibility -/
 
 /-- **Removing a tag restores exactly what the same history without that tag produces**: for every
@@ -448,6 +479,23 @@ example :
     orderView e = [(some 0, { rid := 0, groups := [g 0 1], actions := [13], delay := 0, hookTimeout := 0 }),
                    (none, { rid := 1, groups := [g 1 3], actions := [4], delay := 0, hookTimeout := 0 })] ∧
     e.added = 1 ∧ (hookPriority e).map (·.hid) = [100] := by
+  decide
+
+/-- the engine-level refusal is reachable when the adaptor's IR knows a ruleset (r9) the engine does
+not have: the first ruleset of the file is inserted, the second is refused, the clean-up removes the
+tag (including its previous content) and the counter is back to what it is without the tag -/
+example :
+    let reg : Reg := { badPlugin := fun _ => false, badHook := fun _ => false }
+    let g (gid d : Nat) : Group := { gid := gid, dets := [d] }
+    let ir (rid : Nat) : RsIR := { rid := rid, groups := [g rid 1], actions := [2], delay := 0, hookTimeout := 0, perm := { disable := true, dg := true, act := true }, malformed := false }
+    let env : Env := { reg := reg, root := { rulesets := [ir 0, ir 9], hooks := [] }, inv := true }
+    let B := [freshRs (ir 0)]
+    let dr (rid : Nat) (as : List Nat) : RsIR :=
+      { rid := rid, groups := [], actions := as, delay := 0, hookTimeout := 0, perm := {}, malformed := false }
+    let w := apply env (start B [] 1000) [.add 0 { rulesets := [dr 0 [10]], hooks := [] }]
+    let r := step env w (.add 0 { rulesets := [dr 0 [11], dr 9 [12]], hooks := [7] })
+    w.eng.added = 1 ∧ r.2 = Out.op .addFailed 0 ∧ orderView r.1.eng = [(none, (freshRs (ir 0)).cfg)] ∧
+      r.1.eng.hooksRev = [] := by
   decide
 
 end C13
